@@ -19,7 +19,9 @@ TypePairs == { <<TypeOrder[i], TypeOrder[j]>> : <<i, j>> \in { p \in (1..5) \X (
 Deltas == { <<"in", 0 - 1>>, <<"at", 0>>, <<"out", 1>>,
             <<"mpin", MolProbityExtra - 1>>, <<"mpat", MolProbityExtra>>, <<"mpout", MolProbityExtra + 1>> }
 OccPairs == { <<100, 100>>, <<50, 50>>, <<30, 70>>, <<70, 30>>, <<30, 50>>, <<0, 100>>, <<100, 0>>,
-              <<0, 0>>, <<0, Absent>>, <<Absent, Absent>>, <<Absent, 50>>, <<100, 50>> }
+              <<0, 0>>, <<0, Absent>>, <<Absent, Absent>>, <<Absent, 50>>, <<100, 50>>,
+              \* splits whose two-decimal values are not exact in binary (0.57 * 100 = 56.99999...), and near misses
+              <<57, 43>>, <<29, 71>>, <<58, 42>>, <<57, 44>>, <<56, 43>> }
 Relations == { <<"same", n1, n1>> : n1 \in BOOLEAN }
         \cup { <<rel, n1, n2>> : rel \in {"chain", "cross"}, n1 \in BOOLEAN, n2 \in BOOLEAN }
 
@@ -46,7 +48,7 @@ PairCases == { c \in PairCasesTyped \cup { z \in PairCasesZero : ~(z.rel = "same
 GapClasses == { Radius[ta] + Radius[tb] + dl : ta \in Types, tb \in Types,
                 dl \in {0 - 1, 1, MolProbityExtra - 1, MolProbityExtra + 1} } \cup {60, 100, 150, 250, 320}
 Palette == [types |-> TypeOrder, radius |-> Radius, extra |-> MolProbityExtra,
-            gaps |-> SetToSeq(GapClasses), occs |-> <<100, 100, 100, 50, 50, 30, 70, 0, Absent>>,
+            gaps |-> SetToSeq(GapClasses), occs |-> <<100, 100, 100, 50, 50, 30, 70, 0, Absent, 57, 43, 29, 71>>,
             absent |-> Absent, cutoff |-> Cutoff, um |-> UM]
 
 ASSUME ndJsonSerialize(IOEnv.OUT_FILE, SetToSeq(PairCases))
